@@ -34,6 +34,7 @@ from vgi_rpc.log import Level
 from vgi_rpc.rpc import AnnotatedBatch, CallContext, OutputCollector, RpcError, Stream, StreamState
 
 EVENTS: list[tuple[Any, ...]] = []
+NEVER_FITS = 1 << 62
 
 DICT_T = pa.dictionary(pa.int32(), pa.utf8())
 OUT_SCHEMAS = {
@@ -145,6 +146,13 @@ def sizes_of(batch: pa.RecordBatch) -> tuple[int, int]:
         need = shm_mod._serialize_for_shm(batch).size
     else:
         need = ipc.get_record_batch_size(batch) + shm_mod._STREAM_OVERHEAD
+        # the sink refuses a stream that outgrows the estimate (C28): the region is given back and the batch goes inline —
+        # to the model that is an allocation that can never succeed
+        sink = pa.BufferOutputStream()
+        with ipc.new_stream(sink, batch.schema) as w:
+            w.write_batch(batch)
+        if sink.getvalue().size > need:
+            need = NEVER_FITS
     return batch.nbytes, need
 
 
